@@ -460,6 +460,10 @@ def step (st : St) (toks : List String) : St × String :=
     match unhexOrDash iv, n.toNat? with
     | some iv, some n => (st, hexOrDash (Nonce.counting iv n 12))
     | _, _ => (st, "bad-op")
+  | ["nonce.inc.at", state] =>
+    match unhexOrDash state with
+    | some b => (st, hexOrDash (Nonce.incStep b))
+    | none => (st, "bad-op")
   | ["nonce.inc", n] =>
     -- `IncreasingNonceGenerator`: the nonce handed out by call number `n` (0-based); `Nonce.nth_nonce`: = little-endian `n`
     match n.toNat? with
